@@ -13,7 +13,7 @@ from aioslsk.transfer.model import Transfer, TransferDirection       # noqa: E40
 
 req = json.load(open(sys.argv[1])) if len(sys.argv) > 1 else {}
 
-COMPONENTS = ['..', '.', '', '@@alias', 'C:', 'dir', 'song.mp3', 'song (1).mp3', 'a b', 'éè', 'x' * 40]
+COMPONENTS = ['..', '.', '', '@@alias', 'C:', 'dir', 'song.mp3', 'song (1).mp3', 'a b', 'éè', 'x' * 40, ' ..', '. ', ' ', 'Track [01].mp3', 'C++.ogg', 'Song (live).flac']
 SEPS = ['\\', '/', '\\\\', '//', '\\/']
 
 
@@ -62,7 +62,7 @@ async def main():
         tmp = os.path.realpath(tmp)
         dl = os.path.join(tmp, 'base', 'downloads')
         os.makedirs(dl)
-        existing = ['song.mp3', 'song (1).mp3', 'song (3).mp3', 'a b', 'dir']
+        existing = ['song.mp3', 'song (1).mp3', 'song (3).mp3', 'a b', 'Track [01].mp3', 'Track [01] (1).mp3', 'C++.ogg', 'C++ (1).ogg', 'Song (live).flac', 'Song (live) (1).flac', 'dir']
         for n in existing[:-1]:
             open(os.path.join(dl, n), 'w').close()
         os.makedirs(os.path.join(dl, 'dir'))
